@@ -201,6 +201,13 @@ def cross_corpus():
             else:
                 vs.append('#[token("%%%02d")] F%d' % (i, i))
         out.append('#[derive(Logos)] enum X%d { %s }' % (k, ', '.join(vs))); k += 1
+    # patterns that can never match, alone and next to live ones (a working lexer that reports every byte as an error)
+    for pats in (['[a&&b]'], ['[^\\s\\S]'], ['\\P{any}'], ['x[^\\s\\S]y', '[a&&b]+'], ['[a&&b]', 'ok']):
+        out.append('#[derive(Logos)] enum X%d { %s }' % (k, ', '.join('#[regex("%s")] V%d' % (p_, i_) for i_, p_ in enumerate(pats)))); k += 1
+    out.append('#[derive(Logos)] #[logos(utf8 = false)] enum X%d { #[regex(b"[^\\x00-\\xFF]")] A }' % k); k += 1
+    out.append('#[derive(Logos)] #[logos(skip "[a&&b]")] enum X%d { #[regex("[^\\s\\S]")] A }' % k); k += 1
+    # an undefined reference next to several defined subpatterns (the diagnostic must not depend on a hash order)
+    out.append('#[derive(Logos)] #[logos(subpattern a = "x", subpattern b = "y", subpattern c = "z", subpattern d = "w", subpattern e = "v", subpattern f = "u")] enum X%d { #[regex("(?&a)(?&bb)")] A, #[regex("(?&zz)")] B }' % k); k += 1
     # multi-byte literal tokens next to a pattern whose explicit priority lies between 2 x characters and 2 x bytes
     for args in ('', ', ignore(case)'):
         for hdr in ('', '#[logos(utf8 = false)] '):
